@@ -29,7 +29,7 @@ KNOBS = {
     "p_cancel_fault": 0.12,
     "p_ack_fail": 0.08,
     "p_deps": 0.05,
-    "durations": {"zero": 1, "tiny": 1, "short": 2, "medium": 4, "long": 4, "poll": 2, "tie": 3},
+    "durations": {"zero": 1, "tiny": 1, "short": 2, "medium": 4, "long": 4, "poll": 2, "tie": 3, "vlong": 1},
     "arrival": ["burst", "burst", "waves", "trickle"],
     "outcomes": {"ret": 10, "exc": 2, "baseexc": 1, "nores": 1, "requeue": 0},
     "middlewares": (0, 1),
